@@ -132,26 +132,34 @@ structure RoughPos where
   endArea : EndArea
   endFull : Nat
 
+/-- start search area of `RoughPos::new` -/
+def startAreaOf (v : DataView) (s : Bound) (startTs : Nat) : R (StartArea × Nat) :=
+  match s with
+  | .unb =>
+    match v.entries.head? with
+    | some f => .ok (StartArea.found (lineStart v.p 0), f.ts)
+    | none => .error .panic
+  | _ => startSearchBounds v startTs
+
+/-- end search area of `RoughPos::new` -/
+def endAreaOf (v : DataView) (e : Bound) (endTs : Nat) : R (EndArea × Nat) :=
+  match e with
+  | .unb =>
+    match v.lastFull with
+    | some lf =>
+      if v.dataLen < lineSize v.p then .error .panic       -- `last_line_start` underflow
+      else .ok (EndArea.found (v.dataLen - lineSize v.p), lf)
+    | none => .error .panic
+  | _ => endSearchBounds v endTs
+
 /-- `RoughPos::new` -/
 def roughPos (v : DataView) (s e : Bound) : R RoughPos := do
   let startTs ← checkedStartTime v s
   let endTs ← checkedEndTime v e
   if startTs > endTs then .error (.err "StartBeforeStop") else
-  let (sa, sf) ← match s with
-    | .unb =>
-      match v.entries.head? with
-      | some f => pure (StartArea.found (lineStart v.p 0), f.ts)
-      | none => .error .panic
-    | _ => startSearchBounds v startTs
-  let (ea, ef) ← match e with
-    | .unb =>
-      match v.lastFull with
-      | some lf =>
-        if v.dataLen < lineSize v.p then .error .panic       -- `last_line_start` underflow
-        else pure (EndArea.found (v.dataLen - lineSize v.p), lf)
-      | none => .error .panic
-    | _ => endSearchBounds v endTs
-  return ⟨startTs, sa, sf, endTs, ea, ef⟩
+  let sa ← startAreaOf v s startTs
+  let ea ← endAreaOf v e endTs
+  return ⟨startTs, sa.1, sa.2, endTs, ea.1, ea.2⟩
 
 /-- the u16 at the start of every line of `d[start..stop]` -/
 def smallTss (p : Nat) (d : Bytes) (start stop : Nat) : List Nat :=
